@@ -17,6 +17,7 @@ package message
 import (
 	"encoding/binary"
 	"fmt"
+	"sync/atomic"
 )
 
 var (
@@ -235,6 +236,16 @@ func (h *header) decode(src []byte) (int, error) {
 	}
 
 	return total, nil
+}
+
+// nextPacketID returns the next automatically assigned packet identifier.
+// Zero is not a valid packet identifier and is skipped.
+func nextPacketID() uint16 {
+	for {
+		if id := uint16(atomic.AddUint64(&gPacketID, 1) & 0xffff); id != 0 {
+			return id
+		}
+	}
 }
 
 func (h *header) msglen() int {
